@@ -44,7 +44,7 @@ KERNEL_FILES = (
     ("variogram/estimator.pyx", "gstools.variogram.estimator"),
 )
 THREADS = (None, 1, 2, 3, 4, 8, 16)
-WRAPPER_THREADS = (None, 1, 4)
+WRAPPER_THREADS = (None, 1, 2, 4, 8, 16)
 HALF_PI = math.pi / 2
 NPROC = int(os.environ.get("VERIF_PROCS", "12"))
 NTLC = int(os.environ.get("VERIF_TLC_PARALLEL", "8"))
@@ -120,7 +120,18 @@ def _vecs(rng, lo, hi, n, d, nonzero=False):
 def lattice_cases(rng, tier):
     """Seeded lattice inputs: every shape 0/1..4 in every dimension."""
     draws = 1 if tier == "quick" else 3
-    cases = {k: [] for k in ("summate", "fourier", "incompr", "krige", "vario_u", "vario_s")}
+    cases = {k: [] for k in ("summate", "fourier", "incompr", "krige", "vario_u", "vario_s", "vario_d")}
+    for d in (2, 3):
+        for npts in (2, 4, 6, 7):
+            for ndir in (1, 2, 3):
+                for _ in range(draws * 2):
+                    dirs = _vecs(rng, -3, 3, ndir, d, nonzero=True)
+                    if ndir >= 2 and rng.random() < 0.6:
+                        # nearly opposite / obtuse pair: the reversed first direction, slightly turned
+                        dirs[1] = [-3 * c for c in dirs[0]]
+                        dirs[1][rng.randrange(d)] += rng.choice([-1, 1])
+                    cases["vario_d"].append(dict(kind="vario_d", d=d, pos=_vecs(rng, -3, 3, npts, d), f=_vecs(rng, -3, 3, rng.choice([1, 2]), npts),
+                                                 edges=sorted(rng.sample(range(0, 7), rng.randint(2, 4))), dirs=dirs, tol=rng.choice([1, 1, 3])))
     for d in range(1, 5):
         for n in range(0, 5):
             for m in range(0, 5):
@@ -198,6 +209,23 @@ def _boxes(tier):
             "FB == {0, 1, -2}\n"
             "Box == \\E s \\in {<<2, 1>>, <<3, 1>>, <<2, 2>>, <<3, 2>>} : \\E f \\in [1..s[1] -> [1..s[2] -> FB]] :\n"
             "         inp = [kind |-> \"vario_s\", cols |-> s[2], f |-> f]\n"),
+        "vario_d": (
+            "DB == {<<1, 0>>, <<0, 1>>, <<1, 1>>, <<-1, 0>>, <<-3, 1>>, <<-2, -1>>, <<3, 1>>}\n"
+            "Clouds == {<< <<0, 0>>, <<3, -1>>, <<1, 0>>, <<2, 0>>, <<0, 2>>, <<-3, 1>> >>,\n"
+            "           << <<0, 0>>, <<2, 1>>, <<-1, 1>>, <<1, 3>>, <<3, 0>> >>,\n"
+            "           << <<1, 1>>, <<1, 1>>, <<-2, 0>>, <<0, -3>>, <<3, 1>>, <<2, 2>> >>}\n"
+            "Box == \\E dirs \\in [1..2 -> DB], pos \\in Clouds, tol \\in {1, 3} :\n"
+            "         inp = [kind |-> \"vario_d\", d |-> 2, pos |-> pos, f |-> << [p \\in 1..Len(pos) |-> (p * p) % 5 - 2] >>,\n"
+            "                edges |-> <<0, 2, 4, 7>>, dirs |-> dirs, tol |-> tol]\n"),
+        "vf_hist": (
+            "G == [op |-> \"gen\", v |-> 0]\n"
+            "Ops == {[op |-> \"mean\", v |-> 3], [op |-> \"mean\", v |-> -2], [op |-> \"var\", v |-> -50], [op |-> \"var\", v |-> 1],\n"
+            "        [op |-> \"modes\", v |-> %s], [op |-> \"seed\", v |-> 11], [op |-> \"mean\", v |-> 1], [op |-> \"var\", v |-> 0]}\n"
+            "S0 == [mean |-> 1, ve |-> 0, modes |-> %s, seed |-> 5]\n"
+            "Box == \\/ \\E o1 \\in Ops, o2 \\in Ops : inp = [kind |-> \"vf_hist\", init |-> S0, ops |-> <<G, o1, G, o2, G>>]\n"
+            "       \\/ \\E o1 \\in Ops, o2 \\in Ops : inp = [kind |-> \"vf_hist\", init |-> S0, ops |-> <<o1, o2, G>>]\n"
+            "       \\/ \\E o1 \\in Ops, o2 \\in Ops, o3 \\in Ops : inp = [kind |-> \"vf_hist\", init |-> S0, ops |-> <<G, o1, o2, G, o3, G>>]\n"
+            % (("9", "4") if not big else ("9", "4"))),
         "projector": (
             "Box == \\E d \\in 2..3 : \\E kv \\in [1..d -> -2..2] : inp = [kind |-> \"projector\", kv |-> kv]\n"),
     }
@@ -286,6 +314,23 @@ def case_calls(inp, flip=False):
 
         return [("structured", (f,), exp_s),
                 ("ma_structured", (f, np.zeros(f.shape, dtype=np.uint8)), exp_s)]
+    if kind == "vario_d":
+        npts, nf = len(inp["pos"]), len(inp["f"])
+        pos = _strided(_mat(inp["pos"], npts, inp["d"]).T, flip)
+        f = _strided(_mat(inp["f"], nf, npts), flip)
+        edges = np.array(inp["edges"], dtype=np.double)
+        dirs = np.array(inp["dirs"], dtype=np.double)
+        dirs = dirs / np.sqrt((dirs * dirs).sum(axis=1))[:, None]
+
+        def exp_d(o):
+            v = np.array([[s_ / (2.0 * max(c, 1)) for s_, c in row] for row in o["dirs"]], dtype=np.double)
+            c = np.array([[c for _s, c in row] for row in o["dirs"]], dtype=np.int64)
+            return (v, c)
+
+        # separate_dirs=False: the defining sum (every direction counts every pair of its cone)
+        return [("directional", (f, edges, pos, dirs, inp["tol"] * math.pi / 8, -1.0, False, "m"), exp_d)]
+    if kind == "vf_hist":
+        return []
     if kind == "projector":
         kv = inp["kv"]
         d = len(kv)
@@ -486,12 +531,46 @@ def _lattice_group(states, threads, sink, nontriv, samples):
         judge(kernel, res, expected, 1e-9, sink,
               {"kind": "lattice", "kernel": kernel, "spec_input": inp, "spec_output": out, "args": _replay_args(args)})
         n += 1
+        if inp["kind"] == "vario_d":
+            n += caller_directional(inp, out, expected, sink, WRAPPER_THREADS[idx % len(WRAPPER_THREADS)])
         if nontrivial(expected):
             nontriv.add(hash((kernel, tlaval.freeze(inp))))
         if len(samples) < 1 and nontrivial(expected) and idx % 7 == 0:
             samples.append({"kernel": kernel, "spec_input": inp, "tlc_expected": out,
                             "compiled": _lst(res["compiled"][0]) if res["compiled"][0] is not None else None})
     return n
+
+
+def caller_directional(inp, out, expected, sink, nt):
+    """vario_estimate(direction=...) must return the defining sums of every direction (TLC's values): its
+    choice of separate_dirs is an optimisation of the kernel call and must not be observable."""
+    import gstools as gs
+    from gstools import config
+
+    npts, d = len(inp["pos"]), inp["d"]
+    pos = _mat(inp["pos"], npts, d).T
+    f = _mat(inp["f"], len(inp["f"]), npts)
+    rp = {"kind": "caller-directional", "spec_input": inp, "spec_output": out, "num_threads": nt}
+    old = config.NUM_THREADS
+    config.NUM_THREADS = nt
+    try:
+        with np.errstate(all="ignore"):
+            _bc, gam, cnt = gs.vario_estimate(list(pos), f if len(f) > 1 else f[0], np.array(inp["edges"], dtype=np.double),
+                                              direction=[list(map(float, u)) for u in inp["dirs"]],
+                                              angles_tol=inp["tol"] * math.pi / 8, return_counts=True)
+    except Exception as e:  # noqa: BLE001  the code under test raised on a valid input
+        sink("caller:vario_estimate:directional:raises", "vario_estimate(direction=%s) raised %s: %s" % (inp["dirs"], type(e).__name__, e), rp)
+        return 1
+    finally:
+        config.NUM_THREADS = old
+    nd = len(inp["dirs"])
+    got = (np.asarray(gam, dtype=np.double).reshape(nd, -1), np.asarray(cnt, dtype=np.int64).reshape(nd, -1))
+    if not close(got, expected, 1e-9):
+        sink("caller:vario_estimate:directional:defining-sum",
+             "vario_estimate(direction=%s, angles_tol=%d*pi/8, NUM_THREADS=%s) differs from the defining sums computed by TLC (every "
+             "direction counts every pair of its cone): expected %s, got %s" % (inp["dirs"], inp["tol"], nt, _lst(expected), _lst(got)),
+             dict(rp, expected=_lst(expected), observed=_lst(got)))
+    return 1
 
 
 # ---------------------------------------------------------------------------
@@ -508,6 +587,19 @@ def random_specs(rng, tier):
             for (n, m) in ((1, 1), (5, 17), (32, 257), (16, 3000 if d == 3 else 1200)):
                 for k in ("summate", "summate_fourier", "summate_incompr"):
                     out.append((k, rng.randrange(2**31), dict(d=d, n=n, m=m), True))
+        # fewer points (bins) than threads, many modes: the thread count must still be unobservable
+        for m in (1, 2, 3):
+            for n in (65, 1000):
+                for k in ("summate", "summate_fourier", "summate_incompr"):
+                    out.append((k, rng.randrange(2**31), dict(d=rng.choice([1, 2, 3]), n=n, m=m), True))
+            for k in ("calc_field_krige", "calc_field_krige_and_variance"):
+                out.append((k, rng.randrange(2**31), dict(n=41, m=m), True))
+        for nb in (1, 2):
+            out.append(("unstructured", rng.randrange(2**31), dict(d=2, npts=60, est="m", dist="e", nan=True, nbins=nb), True))
+            out.append(("directional", rng.randrange(2**31), dict(d=2, npts=40, est="m", nan=True, bw=-1.0, sep=False, nbins=nb), True))
+        for (r, c) in ((2, 30), (3, 17)):
+            out.append(("structured", rng.randrange(2**31), dict(r=r, c=c, est="m"), True))
+            out.append(("ma_structured", rng.randrange(2**31), dict(r=r, c=c, est="m"), True))
         for k in ("summate", "summate_fourier", "summate_incompr", "calc_field_krige_and_variance"):
             for sp in ("nan", "inf", "zero-mode"):
                 out.append((k, rng.randrange(2**31), dict(d=rng.choice([2, 3]), n=4, m=9, special=sp), True))
@@ -578,6 +670,8 @@ def random_args(kernel, seed, p):
                 pos[:, 2] = pos[:, 0]
                 pos[0, 2] += 1.0
             edges = np.array([0.0, 0.5, 1.0, 1.7, 2.5, 4.0, 9.0])
+            if p.get("nbins"):
+                edges = np.array([0.0, 1.5, 4.0])[: p["nbins"] + 1]
         f = g.normal(size=(g.integers(1, 3), npts))
         if p.get("nan"):
             f[0, g.integers(0, npts, size=max(1, npts // 10))] = np.nan
@@ -838,34 +932,59 @@ def chunks(lst, n):
 
 
 def _caller_outputs(gs, seed):
+    """label -> ndarray, or an exception text if the code under test raised.  Point sets from 1 point (fewer points /
+    bins than threads, many modes) to a few dozen."""
     g = np.random.default_rng(seed)
     out = {}
-    pts = {d: g.uniform(-5, 5, size=(d, 37)) for d in (1, 2, 3)}
-    for d in (1, 2, 3):
-        model = gs.Exponential(dim=d, var=2.0, len_scale=1.5)
-        out["SRF/RandMeth/dim%d" % d] = gs.SRF(model, seed=seed % 1000, mode_no=24)(list(pts[d]), store=False)
-        if d >= 2:
-            out["SRF/VectorField/dim%d" % d] = gs.SRF(gs.Gaussian(dim=d, var=1.0, len_scale=2.0), generator="VectorField",
-                                                      seed=seed % 1000 + 1, mode_no=24)(list(pts[d]), store=False)
-        if d <= 2:
-            out["SRF/Fourier/dim%d" % d] = gs.SRF(gs.Gaussian(dim=d, var=1.0, len_scale=2.0), generator="Fourier",
-                                                  period=[8.0] * d, mode_no=[4] * d, seed=seed % 1000 + 2)(list(pts[d]), store=False)
-    cpos = g.uniform(0, 4, size=(2, 9))
-    cval = g.normal(size=9)
-    k = gs.krige.Ordinary(gs.Gaussian(dim=2, var=1.5, len_scale=1.2), list(cpos), cval)
-    f, v = k(list(pts[2]), return_var=True, store=False)
-    out["Krige/field+var"] = np.concatenate([f, v])
-    out["Krige/field"] = k(list(pts[2]), return_var=False, store=False)[0]
+
+    def put(label, thunk):
+        try:
+            with np.errstate(all="ignore"):
+                out[label] = np.asarray(thunk())
+        except Exception as e:  # noqa: BLE001  observable of the code under test
+            out[label] = "%s: %s" % (type(e).__name__, e)
+
+    for npts, modes in ((1, 1000), (2, 257), (3, 1000), (37, 24)):
+        pts = {d: g.uniform(-5, 5, size=(d, npts)) for d in (1, 2, 3)}
+        for d in (1, 2, 3):
+            put("SRF/RandMeth/dim%d/%dpts" % (d, npts), lambda d=d: gs.SRF(gs.Exponential(dim=d, var=2.0, len_scale=1.5), seed=seed % 1000,
+                                                                           mode_no=modes)(list(pts[d]), store=False))
+            if d >= 2:
+                put("SRF/VectorField/dim%d/%dpts" % (d, npts), lambda d=d: gs.SRF(
+                    gs.Gaussian(dim=d, var=1.0, len_scale=2.0), generator="VectorField", seed=seed % 1000 + 1,
+                    mode_no=modes)(list(pts[d]), store=False))
+            if d <= 2:
+                put("SRF/Fourier/dim%d/%dpts" % (d, npts), lambda d=d: gs.SRF(
+                    gs.Gaussian(dim=d, var=1.0, len_scale=2.0), generator="Fourier", period=[8.0] * d,
+                    mode_no=[4 if npts > 3 else 16] * d, seed=seed % 1000 + 2)(list(pts[d]), store=False))
+        cpos = g.uniform(0, 4, size=(2, 31))
+        cval = g.normal(size=31)
+
+        def krig(var):
+            k = gs.krige.Ordinary(gs.Gaussian(dim=2, var=1.5, len_scale=1.2), list(cpos), cval)
+            r = k(list(pts[2]), return_var=var, store=False)
+            return np.concatenate([np.asarray(x) for x in r if x is not None]) if isinstance(r, tuple) else r
+
+        put("Krige/field+var/%dpts" % npts, lambda: krig(True))
+        put("Krige/field/%dpts" % npts, lambda: krig(False))
+    pts2 = g.uniform(-5, 5, size=(2, 37))
     fld = g.normal(size=37)
     fld[5] = np.nan
-    bc, gam, cnt = gs.vario_estimate(list(pts[2]), fld, np.linspace(0, 6, 7), return_counts=True)
-    out["vario_estimate/unstructured"] = np.concatenate([gam, cnt.astype(float)])
-    bc, gam, cnt = gs.vario_estimate(list(pts[2]), fld, np.linspace(0, 6, 7), direction=[[1.0, 0.0], [0.0, 1.0]],
-                                     angles_tol=0.6, return_counts=True)
-    out["vario_estimate/directional"] = np.concatenate([gam.ravel(), cnt.astype(float).ravel()])
-    grid = g.normal(size=(12, 7))
-    out["vario_estimate_axis/structured"] = gs.vario_estimate_axis(grid, "x")
-    out["vario_estimate_axis/masked"] = gs.vario_estimate_axis(np.ma.array(grid, mask=g.random(size=grid.shape) < 0.2), "y")
+
+    def vario(edges, **kw):
+        _bc, gam, cnt = gs.vario_estimate(list(pts2), fld, edges, return_counts=True, **kw)
+        return np.concatenate([np.ravel(gam), np.ravel(cnt).astype(float)])
+
+    for nb in (1, 2, 6):
+        edges = np.linspace(0, 6, nb + 1)
+        put("vario_estimate/unstructured/%dbins" % nb, lambda: vario(edges))
+        put("vario_estimate/directional/%dbins" % nb, lambda: vario(edges, direction=[[1.0, 0.0], [0.0, 1.0]], angles_tol=0.6))
+        put("vario_estimate/directional-obtuse/%dbins" % nb, lambda: vario(edges, direction=[[1.0, 0.0], [-3.0, 1.0], [1.0, 1.0]]))
+    for shape in ((2, 30), (3, 9), (12, 7)):
+        grid = g.normal(size=shape)
+        put("vario_estimate_axis/structured/%dx%d" % shape, lambda: gs.vario_estimate_axis(grid, "x"))
+        put("vario_estimate_axis/masked/%dx%d" % shape, lambda: gs.vario_estimate_axis(
+            np.ma.array(grid, mask=np.random.default_rng(seed).random(size=grid.shape) < 0.2), "x"))
     return out
 
 
@@ -884,12 +1003,18 @@ def callers_check(rep, seed, interp0):
         config.NUM_THREADS = old
     n = 0
     for label, ref in outs[None].items():
-        for nt in WRAPPER_THREADS[1:]:
+        cls = label.split("/")[0]
+        for nt in WRAPPER_THREADS:
             n += 1
-            if not same_bytes(np.asarray(ref), np.asarray(outs[nt][label])):
-                rep.violation("caller:%s:num-threads" % label.split("/")[0],
-                              "%s returns different bytes for config.NUM_THREADS=None and %s" % (label, nt),
-                              {"kind": "caller", "label": label, "seed": seed, "a": np.asarray(ref), "b": np.asarray(outs[nt][label])})
+            got = outs[nt][label]
+            if isinstance(got, str):
+                rep.violation("caller:%s:raises" % cls, "%s with config.NUM_THREADS=%s raised %s" % (label, nt, got),
+                              {"kind": "caller", "label": label, "seed": seed, "num_threads": nt})
+            elif not isinstance(ref, str) and not same_bytes(ref, got):
+                rep.violation("caller:%s:num-threads" % cls,
+                              "%s returns different bytes for config.NUM_THREADS=None and %s: max deviation %.3e"
+                              % (label, nt, float(np.max(np.abs(np.nan_to_num(ref) - np.nan_to_num(got)))) if ref.shape == got.shape else float("nan")),
+                              {"kind": "caller", "label": label, "seed": seed, "num_threads": nt, "a": ref, "b": got})
     rep.count(n)
     rep.traces += n
     # generator call = documented formula applied to the kernel sum over the generator's own samples
@@ -1067,6 +1192,117 @@ def _task_fields(job):
     return {"viol": viol, "n": n, "nontrivial": {hash((name, dim, seed))}, "samples": samples}
 
 
+HIST_MODELS = (("Gaussian", 2), ("Exponential", 3), ("Matern", 2))
+
+
+def _hist_settings(st):
+    return dict(mean=float(st["mean"]), var=4.0 ** st["ve"], modes=int(st["modes"]), seed=int(st["seed"]))
+
+
+def _hist_srf(gs, name, dim, cfg):
+    return gs.SRF(_mk_model(gs, name, dim, cfg["var"]), generator="VectorField", seed=cfg["seed"], mode_no=cfg["modes"],
+                  mean_velocity=cfg["mean"])
+
+
+def run_history(gs, name, dim, inp, out, pts, sink):
+    """One history of Kernels.tla (kind vf_hist) on ONE SRF object; after every "gen" the field must be the field of
+    the settings TLC lists for it.  -> number of generated fields checked."""
+    cfg0 = _hist_settings(inp["init"])
+    rp = {"kind": "history", "model": name, "dim": dim, "init": inp["init"], "ops": inp["ops"]}
+    srf = _hist_srf(gs, name, dim, cfg0)
+    gens = iter(out["gens"])
+    done = []
+    n = 0
+    e1 = np.zeros((dim, 1))
+    e1[0] = 1.0
+    for o in inp["ops"]:
+        done.append("%s %s" % (o["op"], o["v"]) if o["op"] != "gen" else "gen")
+        try:
+            if o["op"] == "mean":
+                srf.generator.mean_u = float(o["v"])
+            elif o["op"] == "var":
+                srf.model.var = 4.0 ** o["v"]
+            elif o["op"] == "modes":
+                srf.generator.mode_no = int(o["v"])
+            elif o["op"] == "seed":
+                srf.generator.seed = int(o["v"])
+            else:
+                u = srf(list(pts), store=False)
+        except Exception as e:  # noqa: BLE001
+            sink("VectorField:history:raises", "%s dim %d: history %s raised %s: %s" % (name, dim, done, type(e).__name__, e), rp)
+            return n
+        if o["op"] != "gen":
+            continue
+        st = _hist_settings(next(gens))
+        n += 1
+        what = "%s dim %d, after %s on one object (expected settings %s)" % (name, dim, done, st)
+        # (a) the mean clause: tiny variance => the field is (mean velocity, 0[, 0])
+        if st["var"] < 1e-20:
+            want = np.zeros_like(u)
+            want[0] = st["mean"]
+            if not close(u, want, 1e-12):
+                sink("VectorField:history:mean", "%s: the field is not (mean_velocity, 0[,0]): u(x0) = %s" % (what, u[:, 0].tolist()), dict(rp, upto=list(done)))
+                return n
+        # (b) Kraichnan formula for the CURRENT settings over the generator's own modes
+        gen = srf.generator
+        ks, z1, z2 = np.asarray(gen._cov_sample), np.asarray(gen._z_1), np.asarray(gen._z_2)
+        if ks.shape[1] != st["modes"]:
+            sink("VectorField:history:modes", "%s: the generator sums %d modes" % (what, ks.shape[1]), dict(rp, upto=list(done)))
+            return n
+        P = np.stack([probe_projector(_W["compiled"][0].summate_incompr, ks[:, j]) for j in range(ks.shape[1])], axis=1)
+        phase = ks.T @ pts
+        amp = z1[:, None] * np.cos(phase) + z2[:, None] * np.sin(phase)
+        want = st["mean"] * e1 + st["mean"] * math.sqrt(st["var"] / st["modes"]) * (P @ amp)
+        if not close(u, want, 1e-9):
+            sink("VectorField:history:formula", "%s: the field is not mean*e1 + mean*sqrt(var/N)*sum_j p_j(...) for the current settings: "
+                 "max deviation %.3e" % (what, float(np.max(np.abs(u - want)))), dict(rp, upto=list(done)))
+            return n
+        # (c) equal to a freshly built generator with these settings
+        fresh = _hist_srf(gs, name, dim, st)(list(pts), store=False)
+        if not close(u, fresh, 1e-12):
+            sink("VectorField:history:differs-from-fresh", "%s: the field differs from a freshly built SRF with these settings: max deviation %.3e"
+                 % (what, float(np.max(np.abs(u - fresh)))), dict(rp, upto=list(done)))
+            return n
+    return n
+
+
+def _fold_hist(inp):
+    """(replay only) the settings per gen of a recorded history, as Kernels.tla HistGens computes them."""
+    st, out = dict(inp["init"]), []
+    for o in inp["ops"]:
+        if o["op"] == "gen":
+            out.append(dict(st))
+        else:
+            st[{"mean": "mean", "var": "ve", "modes": "modes", "seed": "seed"}[o["op"]]] = o["v"]
+    return out
+
+
+def _task_history(blocks):
+    import gstools as gs
+
+    viol, n, nontriv = [], 0, set()
+
+    def sink(key, what, rp):
+        if not any(k == key for k, _w, _r in viol):
+            viol.append((key, what, rp))
+
+    g = np.random.default_rng(12345)
+    samples = []
+    for idx, text in blocks:
+        st = tlaval.parse_state(text)
+        inp, out = st["inp"], st["out"]
+        name, dim = HIST_MODELS[idx % len(HIST_MODELS)]
+        pts = g.uniform(-6, 6, size=(dim, 5))
+        k = run_history(gs, name, dim, inp, out, pts, sink)
+        n += k
+        if any(o["op"] != "gen" for o in inp["ops"]):
+            nontriv.add(hash(tlaval.freeze(inp["ops"])))
+        if not samples and idx % 11 == 3:
+            samples.append({"history_on_one_SRF": ["%s %s" % (o["op"], o["v"]) if o["op"] != "gen" else "gen" for o in inp["ops"]],
+                            "model": name, "dim": dim, "tlc_expected_settings_per_gen": out["gens"]})
+    return {"viol": viol, "n": n, "nontrivial": nontriv, "samples": samples}
+
+
 # ---------------------------------------------------------------------------
 
 
@@ -1093,6 +1329,16 @@ def _replay_file(path):
                 print("  %-14s %s" % (name, err or _short(r, 8)))
         elif rp.get("kind") == "field":
             print(_task_fields((rp["model"], rp["dim"], rp["seed"], rp["mode_no"])))
+        elif rp.get("kind") == "history":
+            import gstools as gs
+            inp = {"init": rp["init"], "ops": rp["ops"]}
+            pts = np.random.default_rng(12345).uniform(-6, 6, size=(rp["dim"], 5))
+            run_history(gs, rp["model"], rp["dim"], inp, {"gens": tlaval.parse(tlaval.to_tla(_fold_hist(inp)))}, pts,
+                        lambda k, w, _r: print("  %s: %s" % (k, w)))
+        elif rp.get("kind") == "caller-directional":
+            for kernel, args, exp_of in case_calls(rp["spec_input"]):
+                caller_directional(rp["spec_input"], rp["spec_output"], exp_of(rp["spec_output"]),
+                                   lambda k, w, _r: print("  %s: %s" % (k, w)), rp.get("num_threads"))
         else:
             print(json.dumps(rp)[:2000])
     finally:
@@ -1129,7 +1375,7 @@ def _run_c15(rep, rng, tier, seed, setup, sc):
     ]
     cases = lattice_cases(rng, tier)
     projdef, _ok = projector_def(setup, rep)
-    kinds = ["summate", "fourier", "incompr", "krige", "vario_u", "vario_s"]
+    kinds = ["summate", "fourier", "incompr", "krige", "vario_u", "vario_s", "vario_d"]
     jobs = kernel_jobs(sc, kinds, cases, tier, projdef)
     ojobs, regs_all = omp_jobs(sc, setup, rep, tier)
     t0 = time.time()
@@ -1186,8 +1432,12 @@ def _run_c16(rep, rng, tier, seed, setup, sc):
     ]
     projdef, extracted = projector_def(setup, rep)
     cases = {"incompr": lattice_cases(rng, tier)["incompr"]}
-    jobs = kernel_jobs(sc, ["projector", "incompr"], cases, tier, projdef)
+    jobs = kernel_jobs(sc, ["projector", "incompr", "vf_hist"], cases, tier, projdef)
     results = tlc.run_many(jobs, parallel=NTLC)
+    rh = tlc.must_pass(results[("kernels", "vf_hist")], "Kernels vf_hist")
+    rep.add_tlc("Kernels[vf_hist]", rh)
+    if rh.error:
+        raise tlc.MachineryError("Kernels[vf_hist]: %s\n%s" % (rh.error, rh.stdout[-2000:]))
     for kind in ("projector", "incompr"):
         r = results[("kernels", kind)]
         tlc.must_pass(r, "Kernels " + kind)
@@ -1217,6 +1467,11 @@ def _run_c16(rep, rng, tier, seed, setup, sc):
                                        dump=("states", sc.path("MC_K_%s.dump" % kind))), "Kernels " + kind)
             rep.add_tlc("Kernels[%s, documented projector]" % kind, r2)
         tasks += lattice_tasks(sc, kind)[1]
+    hblocks = list(enumerate(read_blocks(sc, "vf_hist")))
+    reps = 1 if tier == "quick" else 3  # thorough: every history on every model
+    for r_ in range(reps):
+        for ch in chunks([(i + r_, t) for i, t in hblocks], NPROC * 2):
+            tasks.append((_task_history, ch))
     nprobe = 40 if tier == "quick" else 400
     for _ in range(NPROC):
         tasks.append((_task_probe, (rng.randrange(2**31), nprobe)))
